@@ -719,6 +719,91 @@ fn fam_schema(func: Option<&str>, only: Option<u64>) {
     rep.print();
 }
 
+// C07, bounded stand-in, enumerated: every `X op Y` (op = union, intersection, difference) over 18 small source
+// types (literal sets allowed/excluded over numbers and strings, the basic tags, two object atoms, unknown) is
+// materialised with the real semtype_to_runtypes, read back with the real to_sem_type, and compared:
+// (a) literal values by the twin's own membership function (exact); (b) when (a) agrees and no list part is
+// involved, by the engine's is_same_type (objects only: the object decider has no failing case in `mapneg`).
+fn fam_schema2(_func: Option<&str>, only: Option<u64>) {
+    let mut rep = Rep::new("schema2", "convert_to_schema_no_cache", only);
+    let mk = || {
+        let mut ctx = SemTypeContext::new();
+        let mut vs = BTreeMap::new();
+        vs.insert("a".to_string(), Rc::new(SemTypeContext::string()));
+        let a = Rc::new(ctx.mapping_definition(vs, None));
+        let mut vs2 = BTreeMap::new();
+        vs2.insert("b".to_string(), Rc::new(SemTypeContext::number()));
+        let b = Rc::new(ctx.mapping_definition(vs2, None));
+        let n = |vs: Vec<i64>, allowed: bool| Rc::new(SemType::new_complex(0, vec![Rc::new(ProperSubtype::Number { allowed, values: vs.into_iter().map(num).collect() })]));
+        let st = |vs: Vec<&str>, allowed: bool| Rc::new(SemType::new_complex(0, vec![Rc::new(ProperSubtype::String { allowed, values: vs.into_iter().map(strc).collect() })]));
+        let number = Rc::new(SemTypeContext::number());
+        let string = Rc::new(SemTypeContext::string());
+        let base: Vec<(&'static str, Rc<SemType>)> = vec![
+            ("1", n(vec![1], true)), ("1|2", n(vec![1, 2], true)), ("number", number.clone()), ("number\\1", n(vec![1], false)),
+            ("\"a\"", st(vec!["a"], true)), ("\"a\"|\"b\"", st(vec!["a", "b"], true)), ("string", string.clone()), ("string\\\"a\"", st(vec!["a"], false)),
+            ("boolean", Rc::new(SemType::new_basic(SubTypeTag::Boolean.code()))),
+            ("true", Rc::new(SemType::new_complex(0, vec![Rc::new(ProperSubtype::Boolean(true))]))),
+            ("null", Rc::new(SemType::new_basic(SubTypeTag::Null.code()))),
+            ("{a:string}", a.clone()), ("{b:number}", b.clone()),
+            ("1|\"a\"", n(vec![1], true).union(&st(vec!["a"], true)).unwrap()),
+            ("1|2|string", n(vec![1, 2], true).union(&string).unwrap()),
+            ("number|\"a\"|{a:string}", number.union(&st(vec!["a"], true)).unwrap().union(&a).unwrap()),
+            ("unknown", Rc::new(SemTypeContext::unknown())),
+            ("unknown\\{a:string}", Rc::new(SemTypeContext::unknown()).diff(&a).unwrap()),
+        ];
+        (ctx, base)
+    };
+    let nb = mk().1.len();
+    for i in 0..nb {
+        for j in 0..nb {
+            for op in 0..3 {
+                if !rep.want() { continue; }
+                let (mut ctx, base) = mk();
+                let (dx, x) = &base[i];
+                let (dy, y) = &base[j];
+                let (sym, ty) = match op { 0 => ("|", x.union(y)), 1 => ("&", x.intersect(y)), _ => ("\\", x.diff(y)) };
+                let Ok(ty) = ty else { continue };
+                let descr = format!("({}) {} ({})", dx, sym, dy);
+                let name = RuntypeUUID { ty: RuntypeName::SemtypeRecursiveGenerated(0), type_arguments: vec![] };
+                let mut counter = 0usize;
+                let (head, tail) = match semtype_to_runtypes(&mut ctx, &ty, &name, &mut counter) {
+                    Ok(x) => x,
+                    Err(e) => { rep.fail(descr, format!("Err({})", e), "a Runtype".into()); continue; }
+                };
+                let mut schemas: Vec<&NamedSchema> = tail.iter().collect();
+                schemas.push(&head);
+                let back = match head.schema.to_sem_type(&schemas, &mut ctx) {
+                    Ok(b) => b,
+                    Err(e) => { rep.fail(descr, format!("materialised type cannot be read back: Err({})", e), "a type with the same values".into()); continue; }
+                };
+                let mut bad: Option<Val> = None;
+                for v in vals() {
+                    if matches!(v, Val::Mapping(_) | Val::List(_)) { continue; }
+                    if mem(&ty, &v) != mem(&back, &v) { bad = Some(v); break; }
+                }
+                if let Some(v) = bad {
+                    rep.fail(format!("semantic type {} = {:?}", descr, ty),
+                        format!("materialised as {:?}; read back it denotes {:?}; value {:?}: member of the semantic type = {}, of the materialised type = {}", head.schema.kind, back, v, mem(&ty, &v), mem(&back, &v)),
+                        "a Runtype that denotes exactly the same set of values".into());
+                    continue;
+                }
+                // objects: compare the mapping parts through the engine (both sides restricted to objects)
+                let obj = Rc::new(SemType::new_basic(SubTypeTag::Mapping.code()));
+                if let (Ok(t1), Ok(t2)) = (ty.intersect(&obj), back.intersect(&obj)) {
+                    match t1.is_same_type(&t2, &mut ctx) {
+                        Ok(true) => {}
+                        Ok(false) => rep.fail(format!("semantic type {} = {:?}", descr, ty),
+                            format!("materialised as {:?}; read back, its object part {:?} is not the same type as the object part {:?} of the semantic type", head.schema.kind, t2, t1),
+                            "a Runtype that denotes exactly the same set of values (is_same_type on the object parts)".into()),
+                        Err(e) => rep.fail(descr, format!("is_same_type: Err({})", e), "true".into()),
+                    }
+                }
+            }
+        }
+    }
+    rep.print();
+}
+
 // C05: emptiness of an intersection of two tuple types over basic item types, against an independent
 // reading: some length n is allowed by both and every position has a common basic type.
 fn fam_listfold(_func: Option<&str>, only: Option<u64>) {
@@ -1122,7 +1207,8 @@ fn main() {
         "dnf" => fam_dnf(f, only),
         "proper" => fam_proper(f, only),
         "semtype" => fam_semtype(f, only),
-        "schema" => fam_schema(f, only),
+        "schema" => { fam_schema(f, only); if only.is_none() { fam_schema2(f, None); } }
+        "schema2" => fam_schema2(f, only),
         "listfold" => fam_listfold(f, only),
         "listneg" => fam_listneg(f, only),
         "mapneg" => fam_mapneg(f, only),
